@@ -136,6 +136,23 @@ theorem error_context_not_corrupted (o : LexOpts) (text : Bytes) (e : PErr)
     rw [h3] at hc
     omega
 
+/-- … hence for every error of the lexer or parser `ConsolePrint` renders the normal two-line form (source lines from
+the start of the combinator, the offending token coloured, the arrow line with message, file, line and column) and
+never the "beautiful error context corrupted" fallback. -/
+theorem console_print_renders_error (o : LexOpts) (text : Bytes) (e : PErr) (errText file : Bytes) (w : Bool)
+    (h : parseTLFile o text = .err e ∨ parseTLFile o text = .lexErr e) :
+    e.consolePrint text errText file w =
+      some (sl text e.outer.slo e.begin.slo ++ replaceTabs (sl text e.begin.slo e.begin.off) ++
+        colorize (if w then colYellow else colRed) (replaceTabs (sl text e.begin.off e.end.off)) ++
+        replaceTabs (upToLineEnd (sl text e.end.off text.length)) ++ [cLF] ++
+        List.replicate (replaceTabs (sl text e.begin.slo e.begin.off)).length cSpace ++
+        colorize colWhite ((if (List.replicate (replaceTabs (sl text e.begin.off e.end.off)).length (94 : UInt8)).isEmpty then [94]
+          else List.replicate (replaceTabs (sl text e.begin.off e.end.off)).length (94 : UInt8)) ++ [cMinus, cMinus]) ++ [cSpace] ++
+        (if w then colorize colYellow (strBytes "warning: ") else []) ++
+        (errText ++ [cSpace] ++ file ++ strBytes " (line " ++ decBytes e.begin.line ++ strBytes " col " ++ decBytes e.begin.col ++ [cRRound]) ++
+        [cLF]) :=
+  consolePrint_pretty text e.outer e.begin e.end errText file w rfl (error_context_not_corrupted o text e h)
+
 /-- The statements are not vacuous: the empty text parses to the empty schema, and a text consisting of a
 NUL byte is rejected by the lexer with an error at offsets 0..1. -/
 example : parseTLFile {} [] = .ok ⟨[], []⟩ := by
